@@ -1,5 +1,3 @@
 import Gomjml.Props.C04
-#print axioms Gomjml.Props.C04.C04_visible_partial
 #print axioms Gomjml.Props.C04.C04_once
-#print axioms Gomjml.Props.C04.C04_visible_all_bodies
 #print axioms Gomjml.Props.C04.C04_visible_full
